@@ -285,6 +285,19 @@ func c12Ops() []c12op {
 			err3 := q.SetBytes(b[:])
 			return out + fmt.Sprint(err != nil, err2 != nil, err3) + elString(&q)
 		}},
+		{"Transcript with 1500 pending bytes before each of 3 challenges", false, func(c *ipa.IPAConfig, seed int64, slot int) string {
+			t := common.NewTranscript(fmt.Sprintf("big%d", slot))
+			out := ""
+			for round := 0; round < 3; round++ {
+				for i := 0; i < 47; i++ {
+					s := frFromBig(bi(int64(1000*slot + 50*round + i)))
+					t.AppendScalar(&s, []byte("s")) // 33 bytes each
+				}
+				x := t.ChallengeScalar([]byte("c"))
+				out += frToBig(x).Text(16)[:16]
+			}
+			return out
+		}},
 		{"fp.SqrtPrecomp / bandersnatch.GetPointFromX (both roots)", false, func(c *ipa.IPAConfig, seed int64, slot int) string {
 			v := fpFromBig(bi(int64(1234567+slot) * int64(1234567+slot)))
 			x := fpFromBig(bi(int64(3 + 4*slot))) // 3 and 7 are abscissae of curve points
@@ -470,7 +483,7 @@ func c12Free(r *core.Result, seed int64, reps int) {
 			burst = 96
 		case strings.HasPrefix(op.name, "Commit"), strings.HasPrefix(op.name, "BatchNormalize"), strings.HasPrefix(op.name, "Transcript: append"):
 			burst = 64
-		case strings.HasPrefix(op.name, "CheckIPAProof"):
+		case strings.HasPrefix(op.name, "CheckIPAProof"), strings.HasPrefix(op.name, "batch helpers"), strings.HasPrefix(op.name, "Element.SetBytes"), strings.HasPrefix(op.name, "Transcript with 1500"):
 			burst = 40
 		}
 		if burst == 0 {
